@@ -87,7 +87,8 @@ func genFacts() {
 	}
 	// per function / method: the set of call expressions in its body
 	for _, w := range []funcWant{{"pkg/handler/handler_sso_proxy.go", "*", "ssoProxyCalls"}, {"pkg/handler/handler_sso_server.go", "*", "ssoServerCalls"},
-		{"internal/crypto/crypter.go", "*", "crypterCalls"}, {"pkg/session/session_reader.go", "*", "readerCalls"}} {
+		{"internal/crypto/crypter.go", "*", "crypterCalls"}, {"pkg/session/session_reader.go", "*", "readerCalls"}, {"pkg/server/server.go", "*", "serverCalls"},
+		{"pkg/session/store_memory.go", "*", "memoryStoreCalls"}, {"pkg/session/store_redis.go", "*", "redisStoreCalls"}} {
 		f := parseFile(fset, w.file)
 		if f == nil {
 			continue
@@ -102,6 +103,20 @@ func genFacts() {
 			rows = append(rows, fmt.Sprintf("  (%s, %s)", strconv.Quote(name), qs(callsIn(fset, fd.Body))))
 		}
 		fmt.Fprintf(&b, "def %s : List (String × List String) := [\n%s\n]\n\n", w.lean, strings.Join(rows, ",\n"))
+	}
+	// pkg/server/server.go: the expression handed to Shutdown as its timeout
+	if sf := parseFile(fset, "pkg/server/server.go"); sf != nil {
+		expr := ""
+		ast.Inspect(sf, func(n ast.Node) bool {
+			if as, ok := n.(*ast.AssignStmt); ok && len(as.Lhs) == 1 && len(as.Rhs) == 1 && src(fset, as.Lhs[0]) == "shutdownTimeout" {
+				expr = src(fset, as.Rhs[0])
+			}
+			return true
+		})
+		if expr == "" {
+			probs.add("Facts", "shutdownTimeout assignment not found in pkg/server/server.go")
+		}
+		fmt.Fprintf(&b, "def shutdownTimeoutExpr : String := %s\n\n", strconv.Quote(expr))
 	}
 	b.WriteString("end Ww.Gen.Facts\n")
 	writeGen("Facts.lean", b.String())
